@@ -213,3 +213,9 @@ Proof. vm_compute. reflexivity. Qed.
 Example ex_cache :
   snd (get_spec (fst (get_spec empty_cache ([Plain 0; Plain 1], false))) ([Plain 1; Plain 0; Plain 1], false)) = 0.
 Proof. vm_compute. reflexivity. Qed.
+
+(** observation (not part of the property): issubclass is not transitive through a `...` class *)
+Theorem issubclass_transitive_refuted :
+  exists a b c, issub hier_sub a b = true /\ issub hier_sub b c = true /\ issub hier_sub a c = false.
+Proof. exact issub_transitive_refuted. Qed.
+Print Assumptions issubclass_transitive_refuted.
